@@ -17,6 +17,10 @@ from props import c06_util as U
 from props.c06_util import I, Sx, Id, Q, F, cmd
 
 ID = 'C06'
+# core's order-independence replay re-runs a sample in one process: the shipped-style functions (3, 5: ~50 ms per case, always
+# the same style files) are left to the history stream (7) and to the replay of the engine function (2: the random 'sched' styles
+# have one name and path but varying contents)
+ORDER_REPLAY_SKIP_FUNCS = (3, 5, 7)     # (7 runs every history in a fresh child anyway)
 SYN = U.synthetic_styles()
 SYN_NAMES = sorted(SYN)
 
@@ -230,6 +234,63 @@ def impl_pair(arg):
             return [int(b1 == b2 and r1 == r2), int(b1 == b2), diff]
         return call_impl(run)
 
+def impl_history(arg):
+    """2-3 engine calls in ONE process.  Every run has its own set of files; place 0: a directory of its own
+    (the same relative names mean different files), place 1: one shared directory, emptied and rewritten
+    before the run (the same paths get new contents).  -> the list of the runs' results"""
+    # in a freshly forked child, so that the history is all the process has done with these style names: a replay of
+    # the recorded history reproduces what the check saw
+    import json as _json
+    for call in (r[1] for r in arg):
+        if call[0] == 2:
+            for fmt, es in call[1]:
+                U.check_db_roundtrip(fmt, es, U.db_text(fmt, es))
+    rfd, wfd = os.pipe()
+    pid = os.fork()
+    if pid == 0:
+        try:
+            os.close(rfd)
+            try:
+                res = _history_runs(arg)
+            except BaseException as e:
+                res = ['HARNESS', repr(e)]
+            with os.fdopen(wfd, 'w') as w:
+                w.write(_json.dumps(res))
+        finally:
+            os._exit(0)
+    os.close(wfd)
+    with os.fdopen(rfd) as r:
+        data = r.read()
+    os.waitpid(pid, 0)
+    res = _json.loads(data) if data else ['HARNESS', 'the child running the history died']
+    if res and res[0] == 'HARNESS':
+        raise U.HarnessBug(res[1])
+    return res
+
+def _history_runs(arg):
+    outs = []
+    with U.scratch() as d:
+        os.mkdir('shared')
+        for i, (files, call, place) in enumerate(arg):
+            sub = os.path.join(d, 'shared' if place else 'run%d' % i)
+            if place:
+                for nm in os.listdir(sub):
+                    os.unlink(os.path.join(sub, nm))
+            else:
+                os.mkdir(sub)
+            os.chdir(sub)
+            before = _write_files(files)
+            def run():
+                ret, nrep = _engine_call(call, before)
+                written = []
+                for nm in sorted(os.listdir('.')):
+                    if nm not in before:
+                        written.append([nm, open(nm, encoding='utf-8', newline='').read()])
+                return [written, [ret] if ret is not None else [], nrep]
+            outs.append(call_impl(run))
+            os.chdir(d)
+    return outs
+
 def impl_splitext(arg):
     return norm(posixpath.splitext(S(arg))[0])
 
@@ -241,9 +302,12 @@ FUNCS = {
     4: ('Interpreter.command_sort', impl_sort, ('L', ('T', 'S', ('O', 'S')))),
     5: ('metamorphic pair: database vs variant, same citations and style', impl_pair, ('T', 'X', 'X', ('L', 'S'), 'N', 'X', 'X')),      # the two databases stay a pair under shrinking
     6: ('posixpath.splitext', impl_splitext, 'S'),
+    7: ('history of engine calls in one process (same style name, different style files)', impl_history, ('L', ('T', 'X', 'X', 'X'))),
 }
 
 def model_arg(fn, arg):
+    if fn == 7:
+        return [[r[0], r[1]] for r in arg]
     if fn == 3:
         return arg[:3]
     if fn == 5:
@@ -251,6 +315,8 @@ def model_arg(fn, arg):
     return arg
 
 def canon(fn, out):
+    if fn == 7:
+        return [canon_res(o) if not (isinstance(o, list) and o and o[0] == 2) else [2] for o in out]
     out = canon_res(out)
     if fn == 2 and isinstance(out, list) and out and out[0] == 0 and len(out) == 3:
         return out[:2]                     # the explicit-equivalent run is for the oracle
@@ -340,10 +406,19 @@ def _fn2_items(arg, out):
     return [l[1:-1] for l in text.split('\n') if l.startswith('[') and l.endswith(']')]
 
 def oracle(fn, arg, out):
+    if fn == 7:
+        for i, (run, o) in enumerate(zip(arg, out)):
+            msg = oracle(2, [run[0], run[1]], list(o) + [[9]])
+            if msg:
+                return 'run %d of %d in one process (%s): %s' % (i + 1, len(arg), ['own directory', 'same paths rewritten'][run[2]], msg)
+        return None
     if fn == 2:
         v = _fn2_view(arg)
-        if v is not None and v[0] in ('dump', 'rev', 'bytitle') and out[0] == 0:
+        prog = next((c for n, k, c in arg[0] if k == 1 and v is not None and S(n) == v[0] + '.bst'), None)
+        kind_ = next((k for k in ('dump', 'rev', 'bytitle') if prog is not None and SYN[k] == prog), None)    # what the style FILE says, whatever its name
+        if v is not None and kind_ is not None and out[0] == 0:
             style, entries, cites, m = v
+            style = kind_
             items = _fn2_items(arg, out)
             low = lambda l: [x.lower() for x in l]
             want = low(U.resolved_spec(entries, cites, m))
@@ -450,6 +525,12 @@ def _is_f13(kind, fn, arg, detail):
             return False
     if kind != 'oracle':
         return False
+    if fn == 7:       # a run of a history: the signature of that run
+        mm = re.match(r'run (\d+) of \d+ in one process \([^)]*\): (.*)$', str(detail), re.S)
+        if not mm or int(mm.group(1)) > len(arg):
+            return False
+        run = arg[int(mm.group(1)) - 1]
+        return _is_f13('oracle', 2, [run[0], run[1]], mm.group(2))
     if fn == 2:
         v = _fn2_view(arg)
         return (v is not None and str(detail).startswith(PBC)
@@ -631,6 +712,38 @@ def gen_engine(tier, rng):
             co = [cites] if rng.random() < 0.85 else []
             yield ('engine_file', 2, [files, [3, names[0] + U.SUFFIX[fmt], style, co, fo, m]])
 
+def gen_history(tier, rng):
+    """consecutive engine calls in one process: the same style NAME with different contents (other directory, or the
+    same path rewritten), the same contents under different names; every call must come out as if it were alone"""
+    kinds = ['dump', 'bytitle', 'rev', 'dump', 'bytitle', 'byyear', 'count', 'types']
+    for i in range(200 if tier == 'quick' else 2000):
+        nruns = rng.choice([2, 2, 3])
+        place = rng.choice([0, 1])
+        same_name = rng.random() < 0.75
+        ks = [rng.choice(kinds) for _ in range(nruns)]
+        if same_name and len(set(ks)) == 1:
+            ks[-1] = rng.choice([k for k in kinds if k != ks[0]])
+        if not same_name and rng.random() < 0.6:
+            ks = [ks[0]] * nruns            # the same contents under different names
+        runs = []
+        for r in range(nruns):
+            sname = 'house' if same_name else 'house%d' % r
+            db = rand_db(rng, dups=False); cites = rng.choice([['*'], rand_cites(rng), [e[0] for e in db][::-1]])
+            m = rng.choice([2, 1])
+            files = [[sname + '.bst', 1, SYN[ks[r]]], ['refs.bib', 2, [0, db]]]
+            mode = rng.choice([0, 1, 2, 3])
+            if mode == 0:
+                files.append(['doc.aux', 0, aux_lines(cites, sname, ['refs'], rng)])
+                call = [0, 'doc.aux', [], [], m]
+            elif mode == 1:
+                call = [1, ['refs.bib'], sname, [cites], [], m, [], 0]
+            elif mode == 2:
+                call = [2, [[0, db]], sname, [cites], [], m]
+            else:
+                call = [3, 'refs.bib', sname, [cites], [], m]
+            runs.append([files, call, place])
+        yield ('history', 7, runs)
+
 def gen_aux_order(tier, rng):
     """.aux files naming 2-3 databases in NON-alphabetical order (now and then one twice), the same key in several of
     them, citations with '*', order-revealing styles: the files must be read in the order the .aux file names them"""
@@ -791,7 +904,7 @@ def gen(tier, rng):
     U.base_dir()          # made here, before the worker processes are forked, removed by this process at exit
     for c in PINNED:
         yield c
-    for g in (gen_aux, gen_engine, gen_aux_order, gen_real, gen_sort, gen_pairs, gen_splitext):
+    for g in (gen_aux, gen_engine, gen_aux_order, gen_history, gen_real, gen_sort, gen_pairs, gen_splitext):
         for c in g(tier, rng):
             yield c
 
@@ -830,11 +943,15 @@ def describe(fn, arg):
             return {'citations_with_sort_keys': [(S(c), S(k[0]) if k else None) for c, k in arg]}
         if fn == 5:
             return {'bib': U.bib_text(arg[0]), 'variant': U.bib_text(arg[1]), 'citations': [S(c) for c in arg[2]], 'min_crossrefs': arg[3], 'style': S(arg[4]), 'kind': ['uncited added/removed', 'reordered'][arg[5]]}
+        if fn == 7:
+            return {'runs_in_one_process': [dict(describe(2, [r[0], r[1]]), place=['own directory', 'same paths rewritten'][r[2]]) for r in arg]}
         return {'path': S(arg)}
     except Exception as e:
         return {'fn': fn, 'arg': repr(arg)[:500]}
 
 def nontrivial(fn, arg, out):
+    if fn == 7:
+        return any(o[0] == 0 for o in out)
     if fn in (1, 2, 4):
         return out[0] == 0 and len(sx(out)) > 12
     if fn == 3:
